@@ -27,10 +27,16 @@ EXPLANATION = (
     "normalised by a product containing n_walkers and the lengths of all scans enclosing the increment. "
     "GUARD-1: the block energy that feeds the population-control shift is normalised by the plain sum "
     "of the stored weights (finite whenever a walker is alive). "
+    "GUARD-3: the ratio handed to update_greens_function_vmap (the divisor of the rank-one update, also multiplied into "
+    "the cached overlap the next importance ratio divides by) is not a clipped value where(r < eps, 0, r): a walker killed "
+    "inside the sweep would get 0 there, an inf / NaN Green's function, a cached overlap 0 and the weight 0 * inf = NaN. "
+    "One obligation per update, keyed by the function containing the code and the position of the update in the sequence "
+    "the step issues. On the pinned tree all six updates of the fast CPMC step functions fail it: known finding D8 "
+    "(known_findings.json, demos in findings/D8), printed as KNOWN-FINDING, exit 0. "
 )
 NOT_DECIDED = (
-    "finiteness over long histories, NaN reachability in the CPMC propagators (they have no NaN guard), "
-    "values of the thresholds."
+    "finiteness over long histories beyond GUARD-3 (overflow of the fast update for walkers with a vanishing but non-zero "
+    "overlap, all-dead populations), values of the thresholds."
 )
 TECHNIQUE = "static analysis: def-use form check of every weight store (reaching definitions through inlined helpers and scan bodies)"
 
